@@ -682,6 +682,10 @@ class Expr:
             if varinfo.is_constant:
                 return Expr(varinfo.decl_node.value, self.ctx).lower()
 
+            # The annotated type of the expression may be the (wider) type expected
+            # by the context; the data is laid out according to the DECLARED type.
+            typ = varinfo.typ
+
             # Immutable state variable
             if varinfo.is_immutable:
                 ptr = Ptr(
